@@ -47,6 +47,20 @@ CONFIGS = [
     ("rsv1", "MC_Flurry", "MC_rsv1.cfg", {"C14", "C10", "C11"}, "ok", "thorough", ["PsCasInit", "PsInitSwap", "PsCasStart"]),
     # an overfull list bin in a short table: put -> treeify_bin -> try_presize(2n), two resize generations
     ("ovf", "MC_Flurry", "MC_ovf.cfg", {"C14", "C10"}, "ok", "thorough", ["PsCasStart", "XSwapTable"]),
+    # liveness (C11): LiveSpec = Spec with weak fairness of every thread's next step; PROPERTY Termination = <>AllDone, no
+    # VIEW (history variables stay in the state). A thread whose only enabled step is a fruitless spin (pc and state
+    # unchanged) is not forced on by fairness, so "spins for ever once everybody else is done" violates Termination.
+    ("clr3_live", "MC_Flurry", "MC_clr3_live.cfg", {"C11"}, "ok", "quick", []),
+    ("clr3_live_mutant", "MC_Flurry", "MC_clr3_live_mutant.cfg", {"C11"}, "Termination", "quick", []),
+    ("rz2_live", "MC_Flurry", "MC_rz2_live.cfg", {"C11"}, "ok", "quick", []),
+    ("it2_live", "MC_Flurry", "MC_it2_live.cfg", {"C11"}, "ok", "quick", []),
+    ("init2_live", "MC_Flurry", "MC_init2_live.cfg", {"C11"}, "ok", "quick", []),
+    ("list1_live", "MC_Flurry", "MC_list1_live.cfg", {"C11"}, "ok", "thorough", []),
+    ("list2_live", "MC_Flurry", "MC_list2_live.cfg", {"C11"}, "ok", "thorough", []),
+    ("rt2_live", "MC_Flurry", "MC_rt2_live.cfg", {"C11"}, "ok", "thorough", []),
+    ("tree2_live", "MC_Flurry", "MC_tree2_live.cfg", {"C11"}, "ok", "thorough", []),
+    ("clr1_live", "MC_Flurry", "MC_clr1_live.cfg", {"C11"}, "ok", "thorough", []),
+    ("clr2_live", "MC_Flurry", "MC_clr2_live.cfg", {"C11"}, "ok", "thorough", []),
     ("sizing", "Sizing", "Sizing.cfg", {"C14", "C10"}, "ok", "quick", []),
     ("reclaim", "Reclaim", "MC_Reclaim.cfg", {"C03", "C04"}, "ok", "quick", []),
     ("reclaim_unprotected", "Reclaim", "MC_Reclaim_unprotected.cfg", {"C03"}, "NoUseAfterFree", "quick", []),
@@ -83,7 +97,7 @@ def run_for(pid, tier, workers=6):
             continue
         r = lib.run_tlc(module, cfg=cfg, workers=workers, timeout=3600, coverage=want_cov, xmx="8g")
         ok = "No error has been found" in r["out"]
-        viol = re.findall(r"(?:Invariant|Action property) (\w+) is violated", r["out"])
+        viol = re.findall(r"(?:Invariant|Action property|Temporal property) (\w+) (?:is|was) violated", r["out"])
         entry = {"states_generated": r["states"], "distinct_states": r["distinct"], "wall_s": round(r["wall"], 1), "expect": expect}
         if r["timeout"]:
             raise lib.ToolError("TLC timed out on %s" % cfg)
